@@ -3,6 +3,7 @@
 import copy
 
 from props import _transfer_common as TC
+from props import _transfer_flags as TF
 from props import _transfer_push as TP
 
 PROPERTY = "C04"
@@ -28,6 +29,13 @@ RULE = (
     "sides or pre-populated destination is involved."
 )
 ASSUMPTIONS = [
+    "coverage audit: dimensions Model/Transfer.v does not cover run as ORACLE-ONLY scenarios (case key oracle_only; "
+    "no correspondence item): injected FileExistsError, faults in the destination's existence query, a raising "
+    "validate_status, read-only destination, mixed hash names, real hard links on a plain LocalFileSystem, a "
+    "directory at an object's path, the memfs staging source of hashfile.build; failures whose signature is listed "
+    "in _transfer_common.PENDING_FINDINGS are collected in coverage.pending_findings instead of being raised",
+    "non-flat listings (a listing naming another directory object's id) are run for the correspondence but are "
+    "outside C04's quantifier: excluded from the closure audit and counted",
     "index-level push: oracle-only stream in C04 (dvc_data.index.push.push over collect(..., push=True) with a cache "
     "that lacks 0-2 listed files, then restored and pushed again); the designated (closed) request is modelled and "
     "proved in C18 (Model/PushFetch.v)",
@@ -84,10 +92,13 @@ def _judge_and_register(ctx, S, notes, items):
     ctx.count("crash-rounds", sum(1 for ob in S.rounds if ob["crash"] is not None))
     ctx.count("audited-rounds", sum(1 for ob in S.rounds if TC.c04_preconditions(S, ob) is None))
     ctx.count("audit-points", sum(len(ob["snaps"]) + 1 for ob in S.rounds if TC.c04_preconditions(S, ob) is None))
-    for sig, what in problems:
-        ctx.oracle_fail(sig, what, case)
-    inp, exp = S.terms()
-    items.append((case, inp, exp))
+    problems = TC.report(ctx, TC.classify(S, problems), case)
+    TC.count_dims(ctx, TC.dimensions(S) | set(n for n in notes if n.startswith(("stream:", "shape:", "name:", "audit:")) or n in TC.NOTE_DIMS))
+    if case.get("oracle_only"):
+        ctx.count("oracle-only-scenarios")
+    else:
+        inp, exp = S.terms()
+        items.append((case, inp, exp))
     return problems
 
 
@@ -181,6 +192,37 @@ def _chains(ctx, items):
     return n
 
 
+def _audit(ctx, items):
+    n = 0
+    batches = [([(c, ["audit:names"]) for c in TF.names_cases("C04")], "all"),
+               ([(c, ["audit:shapes"]) for c in TF.shape_cases("C04")], "all"),
+               ([(c, ["audit:flags"]) for c in TF.flag_cases("C04")], "one"),
+               (TF.position_cases(ctx, "C04"), "one"),
+               ([(c, ["audit:oracle-only"]) for c in TF.oracle_only_cases("C04")], "none")]
+    for cases, crashes in batches:
+        for case, notes in cases:
+            case = copy.deepcopy(case)
+            if case.get("oracle_only") or any(r.get("kill_state") for r in case["rounds"]):
+                crashes_ = "none"
+            else:
+                crashes_ = crashes
+            S = TC.run_scenario(ctx, case, crash_all=crashes_ == "all", crash_some=1 if crashes_ == "one" else 0)
+            try:
+                n += len(_judge_and_register(ctx, S, ["corpus"] + notes, items))
+            finally:
+                S.close()
+    # the memfs staging source of hashfile.build (oracle-only; closure audit + retry)
+    for case in TF.staging_cases():
+        case = {**case, "prop": "C04"}
+        problems, dims, rounds = TF.run_staging(ctx, case)
+        ctx.case(case, True)
+        ctx.count("audit:staging")
+        ctx.count("oracle-only-scenarios")
+        TC.count_dims(ctx, dims)
+        n += len(TC.report(ctx, [p for p in problems if p[0].startswith("C04:")], case))
+    return n
+
+
 def run(ctx):
     items = []
     n_problems = 0
@@ -196,11 +238,13 @@ def run(ctx):
             n_problems += len(_judge_and_register(ctx, S, ["corpus"], items))
         finally:
             S.close()
+    # ---- coverage audit (tools/COVERAGE_AUDIT.md): fixed cases reaching every input dimension
+    n_problems += _audit(ctx, items)
     # ---- sharing chains A -f- B -g- C (-h- D): every single-file failure (pairs in thorough) under
     # the observed directory-loop orders; the order A,B,C is always among them
     n_problems += _chains(ctx, items)
     # ---- generated
-    nbase = ctx.n(36, 20)
+    nbase = ctx.n(30, 20)
     per_base = ctx.n(2, 30)
     for _ in range(nbase):
         base, notes = TC.gen_base(ctx.rng, "C04")
@@ -276,6 +320,10 @@ def run(ctx):
             ctx.count("push:rounds", len(rounds))
             ctx.count("push:audit-points", sum(len(ob["snaps"]) + 1 for ob in rounds))
             ctx.count("push:" + ("explicit-children" if cv["explicit"] else "lazy-dir-entries"))
+            TC.count_dims(ctx, {"stream:index-push", "stream:index-push:" + ("explicit-children" if cv["explicit"] else "lazy-dir-entries"),
+                                "class:%s->%s(push)" % (cv["cache_cls"], cv["remote_cls"])}
+                          | ({"push:cache-lacks-listed-file"} if cv["cache_missing"] else set())
+                          | ({"kill:after-upload-attempt"} if any(r.get("crash") for r in cv["rounds"]) else set()))
             ctx.count("push:cache-missing=%d" % len(cv["cache_missing"]))
             ctx.count("push:remote:" + cv["remote_cls"] + ("+index" if cv["remote_index"] else ""))
             for f in feats:
@@ -296,6 +344,10 @@ def run(ctx):
 
 def replay_case(ctx, case):
     case = copy.deepcopy(case)
+    if case.get("stream") == "staging":
+        problems, _dims, rounds = TF.run_staging(ctx, case)
+        problems = [p for p in problems if p[0].startswith("C04:")]
+        return {"violates": bool(problems), "problems": problems, "outcomes": [str(r["outcome"][:1]) for r in rounds]}
     if case.get("stream") == "index-push":
         res = TP.run_case(ctx, case)
         problems = res[0][1]
